@@ -758,7 +758,10 @@ _DEFAULT = _Default()
 def scalar(value, *, variance=None, unit=_DEFAULT, dtype=None):
     from .pysym import SymReal, SymInt
     if variance is not None:
-        raise Unsupported('scalar with variance')
+        v = scalar(value, unit=unit, dtype=dtype if dtype is not None else 'float64')
+        v.variance = variance
+        v.variances = variance
+        return v
     if isinstance(value, Var):
         raise Unsupported('scalar(Variable)')
     nan = None
